@@ -15,8 +15,45 @@ def concAct (s : DState) (sys : Sys) (t : Nat) (a : Act) (now : Option Int) : DS
     | some v =>
       if sys'.torn = sys.torn then
         if sys'.rc = v then (s', "ok") else (s', s!"mismatch rc={sys'.rc}")
-      else ({ s' with concFrees := (installedNodes sys).length + 1 }, "ok")
+      else ({ s' with concFrees := (installedNodes sys).length + 1, concTearSlots := sys.slots }, "ok")
     | none => (s', "ok")
+
+/-! the recursive teardown: the harness reports, for every numbered slot, the slot its block is installed in and its
+    index there, and the sequence of decrements and frees of the teardown; the model computes `Teardown.tearRoot`
+    of the tree of installed elements and both must agree -/
+
+def insertByIndex (x : Nat × Nat) : List (Nat × Nat) → List (Nat × Nat)
+  | [] => [x]
+  | y :: ys => if x.1 ≤ y.1 then x :: y :: ys else y :: insertByIndex x ys
+
+/-- the installed tree below `parent` (`none`: the root); `info`: (slot, parent slot, index) -/
+def buildTear (slots : List (Option (Bool × Nat))) (info : List (Nat × Option Nat × Nat)) : Nat → Option Nat → Teardown.ITs
+  | 0, _ => .nil
+  | fuel + 1, parent =>
+    let mine := (info.filter (fun x => x.2.1 == parent)).foldl (fun acc x => insertByIndex (x.2.2, x.1) acc) []
+    mine.foldr (fun (x : Nat × Nat) (rest : Teardown.ITs) =>
+      match slots[x.2]? with
+      | some (some (true, _)) => Teardown.ITs.full (.node x.2 (buildTear slots info fuel (some x.2))) rest
+      | some (some (false, _)) => Teardown.ITs.full .tok rest
+      | _ => Teardown.ITs.skip rest) .nil
+
+def showTear (evs : List Teardown.Ev) : String :=
+  ",".intercalate (evs.filterMap fun e => match e with
+    | .dec => some "d"
+    | .free s => some s!"f{s}"
+    | .freeRoot => some "fr"
+    | .freeCount => some "fc"
+    | .touch _ => none)
+
+def parseSlotInfo (w : String) : Option (List (Nat × Option Nat × Nat)) :=
+  if w == "-" then some [] else
+  (w.splitOn ",").mapM fun e =>
+    match e.splitOn ":" with
+    | [s, p, i] =>
+      (match s.toNat?, i.toNat? with
+       | some s, some i => if p == "r" then some (s, none, i) else p.toNat?.map fun p => (s, some p, i)
+       | _, _ => none)
+    | _ => none
 
 def concStep (s : DState) : List String → Option (DState × String)
   | ["sys", ns, nt] =>
@@ -49,6 +86,13 @@ def concStep (s : DState) : List String → Option (DState × String)
       | ["add", now] => some (concAct s sys t .fetchAdd (now.toInt?))
       | ["reread"] => some (concAct s sys t .reread none)
       | ["acc"] => some (s, "ok")
+      | ["tear", info, stream] =>
+        (match parseSlotInfo info with
+         | some info =>
+           let its := buildTear s.concTearSlots info (info.length + 1) none
+           let want := showTear (Teardown.tearRoot its)
+           if sys.torn = 1 ∧ want == stream then some (s, "ok") else some (s, s!"mismatch teardown model={want}")
+         | none => some (s, "bad-op"))
       | ["tdec"] => some (s, if sys.torn = 1 then "ok" else "not-enabled")
       | ["torn", last, nfrees] =>
         (match last.toInt?, nfrees.toNat? with
